@@ -194,6 +194,27 @@ def generate(repo, verif, build_dbus_dir):
     vals = subprocess.run([exe], capture_output=True, text=True).stdout.split()
     if len(vals) != 3 or any(int(v) < 0 for v in vals):
         raise Shape("constant program printed %r" % vals)
+    # --- keyring constants (dbus-keyring.c); MAX_KEYS_IN_FILE depends on the build configuration
+    ksrc = open(os.path.join(repo, "dbus", "dbus-keyring.c"), encoding="utf-8", errors="replace").read()
+    knames = ["NEW_KEY_TIMEOUT_SECONDS", "EXPIRE_KEYS_TIMEOUT_SECONDS", "MAX_TIME_TRAVEL_SECONDS", "MAX_KEYS_IN_FILE", "KEY_LENGTH_BYTES"]
+    m1 = re.search(r"^#define NEW_KEY_TIMEOUT_SECONDS.*?^#define MAX_TIME_TRAVEL_SECONDS[^\n]*\n", ksrc, re.S | re.M)
+    m2 = re.search(r"^#ifdef DBUS_ENABLE_EMBEDDED_TESTS\n#define MAX_KEYS_IN_FILE[^\n]*\n#else\n#define MAX_KEYS_IN_FILE[^\n]*\n#endif\n", ksrc, re.M)
+    m3 = re.search(r"^#define KEY_LENGTH_BYTES[^\n]*\n", ksrc, re.M)
+    if not (m1 and m2 and m3):
+        raise Shape("keyring constants not found in dbus-keyring.c")
+    defs = "\n".join(l for l in (m1.group(0) + m2.group(0) + m3.group(0)).split("\n") if l.startswith("#"))
+    kfile, kexe = os.path.join(gdir, "gen_keyring.c"), os.path.join(gdir, "gen_keyring")
+    with open(kfile, "w") as f:
+        f.write('#include <config.h>\n#include <stdio.h>\n' + defs + '\nint main(void){ printf("' + " ".join(["%lld"] * len(knames)) + '\\n", '
+                + ", ".join("(long long)(%s)" % n for n in knames) + "); return 0; }\n")
+    r = subprocess.run(["cc", "-w", "-I", repo, "-I", build_dbus_dir, "-DDBUS_COMPILATION", "-DHAVE_CONFIG_H", "-o", kexe, kfile], capture_output=True, text=True)
+    if r.returncode != 0:
+        raise Shape("keyring constant program does not compile: " + r.stderr[-500:])
+    kvals = subprocess.run([kexe], capture_output=True, text=True).stdout.split()
+    if len(kvals) != len(knames) or any(int(v) <= 0 for v in kvals):
+        raise Shape("keyring constant program printed %r" % kvals)
+    for n, v in zip(knames, kvals):
+        out.append("Definition %s : N := %s." % (n, v))
     out.append("Definition max_failures : N := %s." % vals[0])
     out.append("Definition MAX_BUFFER : N := %s." % vals[1])
     out.append("Definition N_CHALLENGE_BYTES : N := %s." % vals[2])
